@@ -150,13 +150,29 @@ func (p *Parser) ParseConditionalExpression() *ConditionalExpression {
 		return stmt
 	}
 
+	// a condition is a single sentence; an empty input records an error in parseExpression
+	stmt.Expression = p.parseExpression(precedenceValueLowset)
+
+	p.nextToken()
+	p.rejectTrailingSentences()
+
+	return stmt
+}
+
+// rejectTrailingSentences records an error for whatever follows the sentence that was parsed:
+// juxtaposed clauses like "a = :x b = :y" are not an expression.
+func (p *Parser) rejectTrailingSentences() {
 	for p.curToken.Type != EOF {
-		stmt.Expression = p.parseExpression(precedenceValueLowset)
+		literal := p.curToken.Literal
+
+		// keeps reporting the problems of the offending tokens themselves
+		p.parseExpression(precedenceValueLowset)
+
+		msg := fmt.Sprintf("Syntax error; unexpected token after the end of the expression, near: %q", literal)
+		p.errors = append(p.errors, msg)
 
 		p.nextToken()
 	}
-
-	return stmt
 }
 
 func (p *Parser) parseGroupedExpression() Expression {
@@ -314,10 +330,12 @@ func (p *Parser) parseCallArguments() []Expression {
 func (p *Parser) ParseUpdateExpression() *UpdateStatement {
 	stmt := &UpdateStatement{Token: p.curToken}
 
-	for p.curToken.Type != EOF {
+	// an update expression is a single sentence (an empty one is rejected by the evaluator)
+	if p.curToken.Type != EOF {
 		stmt.Expression = p.parseExpression(precedenceValueLowset)
 
 		p.nextToken()
+		p.rejectTrailingSentences()
 	}
 
 	return stmt
